@@ -70,13 +70,32 @@ def dir_text(kind, v):
     return path_string(cast(v) if cast else v)
 
 
-def gen_frame(rng, pcols, n, next_id, kvals=None, jvals=None):
+def gen_frame(rng, pcols, n, next_id, kvals=None, jvals=None, null_cols=(), may_drop_all=False):
     kv = kvals or KVALS
     jv = jvals or JVALS
     rows = []
     for i in range(n):
         rows.append({"x": next_id + i, "y": rng.choice([0.5, 1.5, -2.0]), "k": rng.choice(kv), "j": rng.choice(jv)})
+    if null_cols and rng.random() < 0.6:
+        # rows whose partition key is MISSING (NaN / None / NaT): partition_on drops them ("as with pandas, null values will be
+        # dropped"), so the plain model never sees them; placed first / last / anywhere, next to one or several distinct keys
+        how = rng.choice(["first", "last", "some", "some", "all"])
+        for c in null_cols:
+            if rng.random() < 0.7:
+                for i, r in enumerate(rows):
+                    if (how == "first" and i == 0) or (how == "last" and i == n - 1) or (how == "some" and rng.random() < 0.35) or how == "all":
+                        r[c] = None
+        if not may_drop_all and all(any(r[c] is None for c in null_cols) for r in rows):
+            # a first write / overwrite / write_row_groups call keeps at least one complete row: the model reads "is this frame partitioned" off
+            # its (directory, rows) groups (an append / overwrite of only dropped rows is modelled as an edit that adds nothing)
+            r = rng.choice(rows)
+            for c in null_cols:
+                if r[c] is None:
+                    r[c] = rng.choice(kv if c == "k" else jv)
     return rows
+
+
+NULLABLE_KEY_KINDS = ("str", "float", "ts")      # key kinds whose column can hold a missing value without changing dtype
 
 
 def sub_pool(rng, pool):
@@ -104,18 +123,26 @@ def gen_history(rng, hid, maxlen=6):
     n = rng.choice([1, 2, 4, 6, 8])
     kkind, kpool = rng.choice(KIND_POOLS["k"][:3] * 2 + KIND_POOLS["k"][3:])
     jkind, jpool = rng.choice(KIND_POOLS["j"][:3] * 2 + KIND_POOLS["j"][3:])
-    ops = [{"op": "write", "frame": gen_frame(rng, pcols, n, nid, kpool, jpool), "offsets": None}]
+    null_cols = ()
+    if pcols and rng.random() < 0.35:
+        null_cols = tuple(c for c in pcols if {"k": kkind, "j": jkind}[c] in NULLABLE_KEY_KINDS)
+    ops = [{"op": "write", "frame": gen_frame(rng, pcols, n, nid, kpool, jpool, null_cols), "offsets": None}]
     ops[0]["offsets"] = offsets(rng, n)
     nid += n
+    one_handle = rng.random() < 0.15
     for _ in range(rng.randrange(0, maxlen)):
         kinds = ["append"] * 3 + ["remove"] * 2 + ["writergs"] * 3 + (["overwrite"] * 4 if pcols else [])
+        if one_handle:
+            # every operation after the first write goes through ONE long-lived ParquetFile (write_row_groups / remove_row_groups are
+            # its methods; write(append=...) would open another handle): Dataset/DsHandle.v, theorem C09_handle_refines
+            kinds = ["remove"] * 2 + ["writergs"] * 3
         kind = rng.choice(kinds)
         if kind == "remove":
             ops.append({"op": "remove", "sel_spec": [rng.randrange(0, 12) for _ in range(rng.choice([0, 1, 1, 2, 3]))],
                         "all": rng.random() < 0.06, "sort_pnames": rng.random() < 0.5})
             continue
         n = rng.choice([1, 2, 3, 5, 6])
-        o = {"op": kind, "frame": gen_frame(rng, pcols, n, nid, sub_pool(rng, kpool), sub_pool(rng, jpool)), "offsets": offsets(rng, n)}
+        o = {"op": kind, "frame": gen_frame(rng, pcols, n, nid, sub_pool(rng, kpool), sub_pool(rng, jpool), null_cols, kind == "append"), "offsets": offsets(rng, n)}
         nid += n
         if rng.random() < 0.2:
             o["y_int"] = True      # the new frame's y column is int64: the part files must still carry the summary's schema (y: double)
@@ -124,6 +151,8 @@ def gen_history(rng, hid, maxlen=6):
             o["sort_pnames"] = rng.random() < 0.5
         ops.append(o)
     h = {"id": hid, "pcols": pcols, "ptypes": {"k": kkind, "j": jkind}, "ops": ops}
+    if one_handle:
+        h["one_handle"] = True
     if rng.random() < 0.15:
         h["user_open"] = True      # every call gets a plain user function as open_with: the ParquetFile then has no .fs
     return h
@@ -141,6 +170,25 @@ def kind_witnesses():
         out.append({"id": 900021 + n, "pcols": ["k"], "ptypes": {"k": kind, "j": "str"}, "ops": [
             {"op": "write", "frame": fr0, "offsets": [0, 2]}, {"op": "overwrite", "frame": fr1, "offsets": [0]},
             {"op": "overwrite", "frame": fr2, "offsets": [0, 1]}]})
+    return out
+
+
+def null_key_witnesses():
+    """rows with a missing partition key next to exactly ONE distinct key in the written chunk (and next to two): they are dropped,
+    on the first write, on append and on overwrite"""
+    def fr(vals, start):
+        return [{"x": start + i, "y": 0.5, "k": k, "j": j} for i, (k, j) in enumerate(vals)]
+    out = []
+    for n, (ptypes, pcols, a, b) in enumerate([({"k": "int", "j": "str"}, ["j"], "a", "b"), ({"k": "float", "j": "str"}, ["k"], 1.0, 2.5),
+                                              ({"k": "int", "j": "str"}, ["k", "j"], "a", "b")]):
+        def kv(v, kk=1):
+            return (v, "a") if pcols == ["k"] else (kk, v)
+        out.append({"id": 900041 + n, "pcols": pcols, "ptypes": ptypes, "ops": [
+            {"op": "write", "frame": fr([kv(a), kv(None), kv(b), kv(a)], 0), "offsets": [0, 2]},
+            {"op": "append", "frame": fr([kv(a), kv(None), kv(a)], 4), "offsets": [0]},
+            {"op": "append", "frame": fr([kv(None), kv(b)], 7), "offsets": [0]},
+            {"op": "overwrite", "frame": fr([kv(b), kv(None), kv(None)], 9), "offsets": [0]},
+            {"op": "writergs", "frame": fr([kv(None), kv(a), kv(b), kv(None)], 12), "offsets": [0, 2], "sort_key": "part", "sort_pnames": True}]})
     return out
 
 
@@ -205,6 +253,7 @@ def cut(frame, offs, pcols, ptypes=None):
         end = offs[i + 1] if i + 1 < len(offs) else n
         sub = frame[start:end]
         if pcols:
+            sub = [r for r in sub if all(r[c] is not None for c in pcols)]       # rows with a missing key are dropped by the writer's groupby
             keys = sorted(set(tuple(r[c] for c in pcols) for r in sub))
             g = []
             for key in keys:
@@ -228,6 +277,11 @@ def model_ops(h, resolved):
             out.append(["remove", list(sel if sel is not None else []), 1 if o["sort_pnames"] else 0])
             continue
         rgs = sx_rgs(cut(o["frame"], o["offsets"], h["pcols"], h.get("ptypes")))
+        if h["pcols"] and o["op"] == "append" and not any(g for g in rgs):
+            # every row of the frame has a missing partition key and is dropped: the append adds nothing - in the model: the
+            # removal of no row group (an overwrite / write_row_groups call of such a frame still re-sorts: not generated)
+            out.append(["remove", [], 0])
+            continue
         if o["op"] == "writergs":
             out.append(["writergs", rgs, o["sort_key"], 1 if o["sort_pnames"] else 0])
         else:
@@ -250,11 +304,11 @@ def to_df(frame, pcols, ptypes=None, y_int=False):
         if kind in ("int", "bigint"):
             d[c] = np.array(vals, dtype="int64")
         elif kind == "float":
-            d[c] = np.array(vals, dtype="float64")
+            d[c] = np.array([np.nan if v is None else v for v in vals], dtype="float64")
         elif kind == "bool":
             d[c] = np.array(vals, dtype="bool")
         elif kind == "ts":
-            d[c] = pd.Series([pd.Timestamp(v) for v in vals])
+            d[c] = pd.Series([pd.NaT if v is None else pd.Timestamp(v) for v in vals])
         else:
             d[c] = pd.Series(vals, dtype=object)
     return pd.DataFrame(d)
@@ -328,6 +382,7 @@ def run_history(arg):
         from fastparquet import ParquetFile, write
         pcols = h["pcols"]
         okw = {"open_with": plain_open} if h.get("user_open") else {}
+        handle = None
         for o in h["ops"]:
             raised = None
             sel = None
@@ -340,12 +395,16 @@ def run_history(arg):
                     write(root, to_df(o["frame"], pcols, h.get("ptypes"), o.get("y_int", False)), file_scheme="hive", partition_on=list(pcols), row_group_offsets=list(o["offsets"]),
                           append="overwrite", **okw)
                 elif o["op"] == "remove":
-                    pf = ParquetFile(root, **okw)
+                    if h.get("one_handle"):
+                        handle = handle or ParquetFile(root, **okw)
+                    pf = handle or ParquetFile(root, **okw)
                     n = len(pf.row_groups)
                     sel = list(range(n)) if o.get("all") else (sorted(set(i % n for i in o["sel_spec"])) if n else [])
                     pf.remove_row_groups([pf.row_groups[i] for i in sel], sort_pnames=o["sort_pnames"], **okw)
                 elif o["op"] == "writergs":
-                    pf = ParquetFile(root, **okw)
+                    if h.get("one_handle"):
+                        handle = handle or ParquetFile(root, **okw)
+                    pf = handle or ParquetFile(root, **okw)
                     pf.write_row_groups(to_df(o["frame"], pcols, h.get("ptypes"), o.get("y_int", False)), list(o["offsets"]), sort_key=sort_key_fn(o["sort_key"]),
                                         sort_pnames=o["sort_pnames"], **okw)
             except BaseException as e:           # noqa
@@ -353,6 +412,12 @@ def run_history(arg):
             out["resolved"].append(sel)
             obs = observe(root)
             obs["raised"] = raised
+            if handle is not None:
+                try:
+                    obs["handle"] = [[rg.columns[0].file_path for rg in handle.row_groups], int(handle.fmd.num_rows),
+                                     [int(v) for v in handle.to_pandas(columns=["x"])["x"].tolist()] if handle.row_groups else []]
+                except BaseException as e:      # noqa
+                    obs["handle"] = "%s: %s" % (type(e).__name__, str(e)[:120])
             out["steps"].append(obs)
     except BaseException:                         # noqa
         out["error"] = traceback.format_exc()[-3000:]
@@ -414,6 +479,8 @@ def run(ctx):
     ctx.coq_file(os.path.join(C.COQ, "props", "C09.v"))
     bad = C.hygiene()
     ctx.obligation("hygiene: no Admitted/Axiom/Parameter/... in coq/", not bad, "; ".join(bad))
+    from harness import dsfs
+    dsfs.partnames_translator(ctx)
     if not ctx.quick():
         from harness import dsedit2_lib as _L
         _L.coqchk(ctx, ["Pq.Proofs.EditHistory"])
@@ -427,7 +494,7 @@ def run(ctx):
                 "partition values are drawn per history from pools of which two hold prefix-related texts (k in 1/10/11/2/21, j in a/ab/abc/b) and every new frame "
                 "from the whole pool, one value only, or a random subset; plus the DESIGN witness history, 3 prefix-value and 5 value-kind witness histories and 2 "
                 "histories that empty the dataset and append again (finding fixed by 05c32a7)")
-    hs = [design_witness(), emptied_history(["k"], 900002), emptied_history([], 900003)] + prefix_witnesses() + kind_witnesses() + [user_open_witness()] + [gen_history(rng, i) for i in range(nh)]
+    hs = [design_witness(), emptied_history(["k"], 900002), emptied_history([], 900003)] + prefix_witnesses() + kind_witnesses() + null_key_witnesses() + [user_open_witness()] + [gen_history(rng, i) for i in range(nh)]
     cdir = os.path.join(C.VERIF, "corpus", "C09")
     if os.path.isdir(cdir):
         for i, f in enumerate(sorted(os.listdir(cdir))):
@@ -440,14 +507,14 @@ def run(ctx):
     # report it as a failing input - the dataset cannot be read back at all
     crashed = [(h, r) for h, r in zip(hs, results) if isinstance(r, dict) and "__crashed__" in r]
     for h, r in crashed[:5]:
-        pre = [{"id": h["id"] * 10 + n, "pcols": h["pcols"], "ptypes": h.get("ptypes"), "user_open": h.get("user_open"), "ops": h["ops"][:n]} for n in range(1, len(h["ops"]) + 1)]
+        pre = [{"id": h["id"] * 10 + n, "pcols": h["pcols"], "ptypes": h.get("ptypes"), "user_open": h.get("user_open"), "one_handle": h.get("one_handle"), "ops": h["ops"][:n]} for n in range(1, len(h["ops"]) + 1)]
         rr = C.pmap(run_history, [(x, ctx.scratch) for x in pre], nproc=4, job_timeout=30)
         bad = [x for x, y in zip(pre, rr) if isinstance(y, dict) and "__crashed__" in y]
         hh = bad[0] if bad else h
         o = hh["ops"][-1]
         ctx.fail({"component": "dataset-edit", "symptom": "process-crashed-or-hung", "op": o["op"], "partitioned": bool(h["pcols"]),
                   "emptied_before": False, "sort_pnames": bool(o.get("sort_pnames") or o["op"] == "overwrite")},
-                 {"history": {"id": h["id"], "pcols": h["pcols"], "ptypes": h.get("ptypes"), "user_open": h.get("user_open"), "ops": hh["ops"]}, "step": len(hh["ops"]) - 1, "observed": r["__crashed__"]},
+                 {"history": {"id": h["id"], "pcols": h["pcols"], "ptypes": h.get("ptypes"), "user_open": h.get("user_open"), "one_handle": h.get("one_handle"), "ops": hh["ops"]}, "step": len(hh["ops"]) - 1, "observed": r["__crashed__"]},
                  "running / observing this history kills or hangs the process: %s" % r["__crashed__"])
     if len(crashed) > 5:
         ctx.notes.append("%d histories crashed the worker process; 5 reported" % len(crashed))
@@ -475,6 +542,8 @@ def run(ctx):
         ctx.count("partition_columns", len(h["pcols"]))
         ctx.count("history_length", len(h["ops"]))
         ctx.count("open_with", "user function" if h.get("user_open") else "default")
+        ctx.count("handle", "one long-lived handle for every operation after the first write" if h.get("one_handle") else "fresh handle per operation")
+        ctx.count("frames_with_missing_partition_keys", sum(1 for o in h["ops"] if any(r[c] is None for r in o.get("frame", []) for c in h["pcols"])))
         ctx.count("partition_value_kinds", "/".join((h.get("ptypes") or DEFAULT_PTYPES)[c] for c in h["pcols"]) or "-")
         if not isinstance(mo, list) or len(mo) != len(h["ops"]):
             ctx.correspondence("edit_hist answers one record per step", {"history": h["id"]}, len(h["ops"]), mo)
@@ -487,7 +556,7 @@ def run(ctx):
             def sid(x):
                 return SCHEMA_ID if (x is not None and x == ref_schema) else 2
             short = {"history": h["id"], "step": si, "op": o["op"], "pcols": h["pcols"], "sort_pnames": o.get("sort_pnames"), "sort_key": o.get("sort_key")}
-            case = {"history": {"id": h["id"], "pcols": h["pcols"], "ptypes": h.get("ptypes"), "user_open": h.get("user_open"), "ops": h["ops"][:si + 1]}, "step": si}
+            case = {"history": {"id": h["id"], "pcols": h["pcols"], "ptypes": h.get("ptypes"), "user_open": h.get("user_open"), "one_handle": h.get("one_handle"), "ops": h["ops"][:si + 1]}, "step": si}
             ctx.case({"h": h["ops"][:si + 1], "p": h["pcols"]}, trivial=si == 0)
             ctx.count("op", o["op"] + ("/sort_pnames" if o.get("sort_pnames") else ""))
             ctx.count("row_groups_after", min(len(msum), 12))
@@ -534,6 +603,10 @@ def run(ctx):
             ctx.correspondence("directory up to file names (multiset of (partition directory, rows)): model = real", short,
                                sorted([dir_of(p), ids] for p, ids in files_sx(mdir)), sorted([dir_of(p), ids] for p, ids in rdir))
             ctx.correspondence("num_rows field: model = real", short, mnum, obs["num_rows"])
+            if "handle" in obs:
+                # Handle.v `coherent`: the long-lived handle that made the operation equals a fresh open of the result
+                ctx.correspondence("the reused handle's row-group list, num_rows and read = the model's summary (C09_handle_refines)", short,
+                                   [[p for p, _ in files_sx(msum)], mnum, [i for _, ids in files_sx(msum) for i in ids]], obs["handle"])
             if spec is not None and acc:
                 ctx.correspondence("abs(model state) = spec_step (plain model) on this history", short, files_sx(mabs), spec)
             if problems:
